@@ -76,8 +76,8 @@ class QfixedImp(float, Qtype):
 
     def to_bool(self) -> List[bool]:
         integer_part = bin_to_bool_list(
-            bin(int(self.value))[::-1], self.BIT_SIZE_INTEGER
-        )
+            bin(int(self.value) % 2**self.BIT_SIZE_INTEGER), self.BIT_SIZE_INTEGER
+        )[::-1]
 
         fractional_part = []
         c_val = self.value
